@@ -220,3 +220,87 @@ Definition c04_norm_case (hist : bool) (edges dz : list Q) (data : list oq) (sam
            forallb2 (fun s o => olist_ok tol48 amp
                        (oscale norm (if hist then hist_corrected edges dz s else s)) o)
                     samples out_samples ].
+
+(* ------------------------------------------------ histories of public calls (C04) *)
+(* The statements above are about a CorrFunc as constructed.  Between construction and
+   CorrFunc.sample() / RedshiftData.from_corrfuncs() a program may call any public method of the
+   containers.  The state is what the four NormalisedCounts store; a history is a list of calls:
+     H_obs o k       read-only public method number o, called on (or through) container k:
+                     get_array, sample_patch_sum, bins[...] / patches[...], to_dict, to_file, ==,
+                     is_compatible, repr, +, *, pickling, sample(), from_corrfuncs(): each returns a
+                     new object and stores nothing
+     H_set k i j v   PatchedCounts.set_patch_pair(i, j, v) on the counts of container k
+                     (self.counts[:, i, j] = v), the way measurements.py and from_hdf fill them *)
+Inductive pkind := K_dd | K_dr | K_rd | K_rr.
+Record cfs := { cf_dd : pc; cf_dr : option pc; cf_rd : option pc; cf_rr : option pc }.
+Inductive call :=
+| H_obs (o : nat) (k : pkind)
+| H_set (k : pkind) (i j : nat) (v : list Q).
+
+Fixpoint set_nth {A} (k : nat) (x : A) (l : list A) : list A :=
+  match l, k with
+  | [], _ => []
+  | _ :: t, O => x :: t
+  | a :: t, S k' => a :: set_nth k' x t
+  end.
+Definition mat_set (i j : nat) (x : Q) (M : mat) : mat := set_nth i (set_nth j x (nth i M [])) M.
+Definition pc_set (i j : nat) (v : list Q) (p : pc) : pc :=
+  {| pc_auto := pc_auto p; pc_counts := map2 (fun M x => mat_set i j x M) (pc_counts p) v;
+     pc_w1 := pc_w1 p; pc_w2 := pc_w2 p |}.
+
+Definition cf_get (k : pkind) (s : cfs) : option pc :=
+  match k with K_dd => Some (cf_dd s) | K_dr => cf_dr s | K_rd => cf_rd s | K_rr => cf_rr s end.
+Definition cf_upd (k : pkind) (f : pc -> pc) (s : cfs) : cfs :=
+  match k with
+  | K_dd => {| cf_dd := f (cf_dd s); cf_dr := cf_dr s; cf_rd := cf_rd s; cf_rr := cf_rr s |}
+  | K_dr => {| cf_dd := cf_dd s; cf_dr := option_map f (cf_dr s); cf_rd := cf_rd s; cf_rr := cf_rr s |}
+  | K_rd => {| cf_dd := cf_dd s; cf_dr := cf_dr s; cf_rd := option_map f (cf_rd s); cf_rr := cf_rr s |}
+  | K_rr => {| cf_dd := cf_dd s; cf_dr := cf_dr s; cf_rd := cf_rd s; cf_rr := option_map f (cf_rr s) |}
+  end.
+
+(* the code: only set_patch_pair stores anything *)
+Definition call_step (c : call) (s : cfs) : cfs :=
+  match c with
+  | H_obs _ _ => s
+  | H_set k i j v => cf_upd k (pc_set i j v) s
+  end.
+Definition run_calls (h : list call) (s : cfs) : cfs := fold_left (fun s c => call_step c s) h s.
+Definition is_set (c : call) : bool := match c with H_set _ _ _ _ => true | H_obs _ _ => false end.
+Definition observers_only (h : list call) : bool := forallb (fun c => negb (is_set c)) h.
+
+(* CorrFunc.sample() of a state *)
+Definition cfs_data (s : cfs) : list res := corr_data (cf_dd s) (cf_dr s) (cf_rd s) (cf_rr s).
+Definition cfs_samples (N : nat) (s : cfs) : list (list res) := corr_samples N (cf_dd s) (cf_dr s) (cf_rd s) (cf_rr s).
+
+(* what NormalisedCounts.get_array returns: counts / sum_weights.data[:, None, None] (a new array) *)
+Definition pc_get_array (p : pc) : list mat :=
+  map2 (fun M d => map (map (fun x => x / d)) M) (pc_counts p) (nc_den_data (pc_auto p) (pc_w1 p) (pc_w2 p)).
+(* a different implementation, for contrast (Proofs: inplace_history_refuted): observer number 0
+   (NormalisedCounts.get_array) computing its result in the array PatchedCounts.get_array hands
+   out, i.e. in the stored counts.  It agrees with the code on every freshly constructed CorrFunc. *)
+Definition pc_norm_inplace (p : pc) : pc :=
+  {| pc_auto := pc_auto p; pc_counts := pc_get_array p; pc_w1 := pc_w1 p; pc_w2 := pc_w2 p |}.
+Definition call_step_inplace (c : call) (s : cfs) : cfs :=
+  match c with
+  | H_obs O k => cf_upd k pc_norm_inplace s
+  | _ => call_step c s
+  end.
+Definition run_calls_inplace (h : list call) (s : cfs) : cfs := fold_left (fun s c => call_step_inplace c s) h s.
+
+Definition pc_eqb (p q : pc) : bool :=
+  Bool.eqb (pc_auto p) (pc_auto q) && list_eqb qmat_eqb (pc_counts p) (pc_counts q)
+  && qmat_eqb (pc_w1 p) (pc_w1 q) && qmat_eqb (pc_w2 p) (pc_w2 q).
+Definition opc_eqb (a b : option pc) : bool :=
+  match a, b with Some p, Some q => pc_eqb p q | None, None => true | _, _ => false end.
+Definition cfs_eqb (s t : cfs) : bool :=
+  pc_eqb (cf_dd s) (cf_dd t) && opc_eqb (cf_dr s) (cf_dr t) && opc_eqb (cf_rd s) (cf_rd t) && opc_eqb (cf_rr s) (cf_rr t).
+
+(* C04 after a history: s0 = the containers as constructed, h = the calls made, after = what the
+   containers store afterwards (None: some stored number is no longer finite), impl = what
+   CorrFunc.sample() then returns.  Bits 0-2 as c04_corr_case on the model state run_calls h s0;
+   bit 3: the stored arrays are those of the model state. *)
+Definition c04_hist_case (N : nat) (s0 : cfs) (h : list call) (after : option cfs)
+           (impl : option (list oq * list (list oq))) : nat :=
+  let s := run_calls h s0 in
+  (c04_corr_case N (cf_dd s) (cf_dr s) (cf_rd s) (cf_rr s) impl
+   + 8 * code [ match after with Some a => cfs_eqb s a | None => false end ])%nat.
